@@ -1387,12 +1387,14 @@ impl<T: PackedInt> IntVec<T> {
         let index_capacity = ((index_bytes * 103) / 64).max(index_bytes);
         let index_aligned = (index_capacity + 15) & !15;
         
-        let mut index_data = vec![0u8; index_aligned];
+        // Store sample_min (8 bytes) + sample offsets, get_block_based adds it back
+        let mut index_data = vec![0u8; 8 + index_aligned];
+        index_data[..8].copy_from_slice(&sample_min.to_le_bytes());
         let mut bit_offset = 0;
         
         for &sample in &samples {
             let offset_sample = sample - sample_min;
-            self.write_bits_bulk(&mut index_data, offset_sample, bit_offset, sample_width)?;
+            self.write_bits_bulk(&mut index_data[8..], offset_sample, bit_offset, sample_width)?;
             bit_offset += sample_width as usize;
         }
 
@@ -1858,12 +1860,14 @@ impl<T: PackedInt> IntVec<T> {
         let index_bytes = (index_bits + 7) / 8;
         let index_aligned = (index_bytes + 15) & !15;
         
-        let mut index_data = vec![0u8; index_aligned];
+        // Store sample_min (8 bytes) + sample offsets, get_block_based adds it back
+        let mut index_data = vec![0u8; 8 + index_aligned];
+        index_data[..8].copy_from_slice(&sample_min.to_le_bytes());
         let mut bit_offset = 0;
         
         for &sample in &samples {
             let offset_sample = sample - sample_min;
-            self.write_bits(&mut index_data, offset_sample, bit_offset, sample_width)?;
+            self.write_bits(&mut index_data[8..], offset_sample, bit_offset, sample_width)?;
             bit_offset += sample_width as usize;
         }
 
@@ -2038,16 +2042,17 @@ impl<T: PackedInt> IntVec<T> {
         let block_idx = index / block_units;
         let offset_in_block = index % block_units;
 
-        // Get sample (block base value)
+        // Get sample (block base value): sample_min (8 bytes) + sample offset
         let index_data = self.index.as_ref()?;
+        let sample_min = u64::from_le_bytes(index_data.get(..8)?.try_into().ok()?);
         let sample_bit_offset = block_idx * sample_width as usize;
-        let sample_offset = self.read_bits(index_data, sample_bit_offset, sample_width).ok()?;
+        let sample_offset = self.read_bits(&index_data[8..], sample_bit_offset, sample_width).ok()?;
 
         // Get offset within block  
         let data_bit_offset = index * offset_width as usize;
         let block_offset = self.read_bits(&self.data, data_bit_offset, offset_width).ok()?;
 
-        Some(sample_offset + block_offset)
+        Some(sample_min + sample_offset + block_offset)
     }
 }
 
